@@ -16,7 +16,7 @@ trap 'git -C /repo checkout -- . ; ' EXIT
 RES="{}"
 for P in $PROPS; do
   T0=$(date +%s)
-  ( cd /verif && VERIF_EVID_DIR="$SCR/evidence" VERIF_REPLAY_DIR="$SCR/replays" ./check "$P" --tier "${TIER:-quick}" > "$SCR/$P.log" 2>&1 ); RC=$?
+  ( cd ${VROOT:-/verif} && VERIF_EVID_DIR="$SCR/evidence" VERIF_REPLAY_DIR="$SCR/replays" ./check "$P" --tier "${TIER:-quick}" > "$SCR/$P.log" 2>&1 ); RC=$?
   T1=$(date +%s)
   VL=$(grep -m1 "^VIOLATION" "$SCR/$P.log" || true)
   WHAT=""
@@ -44,4 +44,4 @@ json.dump(d,open(sd+"/detection.json","w"),indent=1)
 print(json.dumps({k:v["detected"] for k,v in d["checks"].items()}))
 PY
 # leave the harness built against the clean tree again
-( cd /verif && python3 -c "import sys;sys.path.insert(0,'driver');import common;print(common.build_harness()[0])" )
+( cd ${VROOT:-/verif} && python3 -c "import sys;sys.path.insert(0,'driver');import common;print(common.build_harness()[0])" )
